@@ -300,6 +300,41 @@ class _Rewriter(ast.NodeTransformer):
                     new_args.append(a)
             node.args = new_args
             self._hit('C splat', node)
+        # C: f(**{'k': v}) -> f(k=v)   (a display with identifier keys spread on the spot; `**{}` disappears)
+        if any(k.arg is None and isinstance(k.value, ast.Dict) and
+               all(isinstance(dk, ast.Constant) and isinstance(dk.value, str) and dk.value.isidentifier() for dk in k.value.keys)
+               for k in node.keywords):
+            new_kw: List[ast.keyword] = []
+            given = [k.arg for k in node.keywords if k.arg is not None]
+            ok_c = True
+            for k in node.keywords:
+                if k.arg is None and isinstance(k.value, ast.Dict) and \
+                        all(isinstance(dk, ast.Constant) and isinstance(dk.value, str) and dk.value.isidentifier() for dk in k.value.keys):
+                    names_ = [dk.value for dk in k.value.keys]
+                    if len(set(names_)) != len(names_) or set(names_) & set(given):
+                        ok_c = False
+                    new_kw += [_loc(ast.keyword(arg=dk.value, value=dv), k.value) for dk, dv in zip(k.value.keys, k.value.values)]
+                    given += names_
+                else:
+                    new_kw.append(k)
+            if ok_c:
+                node.keywords = new_kw
+                self._hit('C kw-splat', node)
+        # RO: a read through a read-only view made on the spot is the read itself:
+        #   MappingProxyType(X).get(k) / .keys() / .values() / .items() / .__getitem__(k) / .__contains__(k)  ->  X.get(k) …
+        #   iter(MappingProxyType(X)) / len(…)  ->  iter(X) / len(X)
+        def _proxy(e: ast.AST) -> Optional[ast.expr]:
+            if isinstance(e, ast.Call) and (dotted(e.func) or '').rsplit('.', 1)[-1] == 'MappingProxyType' and len(e.args) == 1 and not e.keywords \
+                    and not isinstance(e.args[0], ast.Starred):
+                return e.args[0]
+            return None
+        if isinstance(f, ast.Attribute) and f.attr in ('get', 'keys', 'values', 'items', '__getitem__', '__contains__', '__iter__', '__len__') and \
+                _proxy(f.value) is not None:
+            f.value = _proxy(f.value)
+            self._hit('RO proxy', node)
+        elif dotted(f) in ('iter', 'len', 'list', 'tuple', 'sorted') and len(node.args) == 1 and not node.keywords and _proxy(node.args[0]) is not None:
+            node.args = [_proxy(node.args[0])]
+            self._hit('RO proxy', node)
         # O: operator object applied
         # U: isinstance(x, A | B) -> isinstance(x, (A, B))   (A, B class references: types.UnionType checks the same classes in order)
         if dotted(f) in ('isinstance', 'issubclass') and len(node.args) == 2 and not node.keywords and isinstance(node.args[1], ast.BinOp) and \
@@ -740,11 +775,25 @@ class _Rewriter(ast.NodeTransformer):
                 return _loc(node, node)
         return node
 
+    def visit_Subscript(self, node: ast.Subscript) -> ast.AST:
+        self.generic_visit(node)
+        v = node.value
+        if isinstance(node.ctx, ast.Load) and isinstance(v, ast.Call) and (dotted(v.func) or '').rsplit('.', 1)[-1] == 'MappingProxyType' and \
+                len(v.args) == 1 and not v.keywords and not isinstance(v.args[0], ast.Starred):
+            node.value = v.args[0]                  # RO: MappingProxyType(X)[k]  ->  X[k]
+            self._hit('RO proxy', node)
+        return node
+
     def visit_Compare(self, node: ast.Compare) -> ast.AST:
         self.generic_visit(node)
         if len(node.ops) != 1:
             return node
         op, left, right = node.ops[0], node.left, node.comparators[0]
+        if isinstance(op, (ast.In, ast.NotIn)) and isinstance(right, ast.Call) and (dotted(right.func) or '').rsplit('.', 1)[-1] == 'MappingProxyType' \
+                and len(right.args) == 1 and not right.keywords and not isinstance(right.args[0], ast.Starred):
+            node.comparators = [right.args[0]]      # RO: k in MappingProxyType(X)  ->  k in X
+            self._hit('RO proxy', node)
+            return node
         if isinstance(op, (ast.Eq, ast.NotEq)):
             # E: tuple displays
             if isinstance(op, ast.Eq) and isinstance(left, ast.Tuple) and isinstance(right, ast.Tuple) and len(left.elts) == len(right.elts) \
@@ -1454,7 +1503,253 @@ def _sentinel_loops(fn: ast.AST, module_sentinels: Set[str]) -> int:
     return n_changed
 
 
+def _static_loops(fn: ast.AST) -> int:
+    """SU:  for a, b in ((K1, E1), (K2, E2), …): BODY   ->   BODY[a:=K1, b:=E1]; BODY[a:=K2, b:=E2]; …
+    for a display of at most 16 displays of atoms (constants and names the body does not bind), a body without break / continue /
+    return / nested definitions that does not bind the targets, no else clause, and targets that are not read after the loop.
+    SA:  setattr(X, 'name', V)  as a statement   ->   X.name = V   (a plain identifier that is not subject to name mangling).
+    Both are exact: the atoms are evaluated to the same objects whenever they are read, and setattr with a constant name is
+    what the assignment statement compiles to."""
+    if not isinstance(getattr(fn, 'body', None), list):
+        return 0
+    n_changed = 0
+
+    class _Sub(ast.NodeTransformer):
+        def __init__(self, bind):
+            self.bind = bind
+
+        def visit_Name(self, x):    # noqa: N802
+            if isinstance(x.ctx, ast.Load) and x.id in self.bind:
+                return _loc(copy.deepcopy(self.bind[x.id]), x)
+            return x
+
+    def atom(e: ast.AST) -> bool:
+        if isinstance(e, (ast.Constant, ast.Name)):
+            return True
+        if isinstance(e, ast.Attribute):        # a dotted reference (module.Class): read again, it is the same object
+            return dotted(e) is not None
+        # operator.attrgetter('x') and friends: stateless function objects, interchangeable with a fresh one
+        return isinstance(e, ast.Call) and _opname(e.func) in ('attrgetter', 'itemgetter', 'methodcaller') and not e.keywords and \
+            all(isinstance(a, ast.Constant) for a in e.args)
+
+    # SR:  v = {'k1': E1, 'k2': E2} … f(…, **v)   (v bound once, read once — by that spread)   ->   v_k1 = E1; v_k2 = E2 … f(…, k1=v_k1, k2=v_k2)
+    # the values are still computed where the display was, the mapping itself was never observable
+    name_loads: Dict[str, List[ast.Name]] = {}
+    name_stores: Dict[str, int] = {}
+    for y in ast.walk(fn):
+        if isinstance(y, ast.Name):
+            if isinstance(y.ctx, ast.Load):
+                name_loads.setdefault(y.id, []).append(y)
+            else:
+                name_stores[y.id] = name_stores.get(y.id, 0) + 1
+        elif isinstance(y, ast.arg):
+            name_stores[y.arg] = name_stores.get(y.arg, 0) + 1
+    spreads = {id(k.value): (c, k) for c in ast.walk(fn) if isinstance(c, ast.Call) for k in c.keywords if k.arg is None and isinstance(k.value, ast.Name)}
+
+    def sra(stmts: List[ast.stmt]) -> None:
+        nonlocal n_changed
+        for i, st in enumerate(list(stmts)):
+            if isinstance(st, ast.Assign) and len(st.targets) == 1 and isinstance(st.targets[0], ast.Name) and isinstance(st.value, ast.Dict) and st.value.keys \
+                    and all(isinstance(k, ast.Constant) and isinstance(k.value, str) and k.value.isidentifier() for k in st.value.keys):
+                v = st.targets[0].id
+                ld = name_loads.get(v, [])
+                keys = [k.value for k in st.value.keys]
+                if name_stores.get(v) == 1 and len(ld) == 1 and id(ld[0]) in spreads and len(set(keys)) == len(keys):
+                    call, kw = spreads[id(ld[0])]
+                    if not (set(keys) & {k.arg for k in call.keywords if k.arg}) and \
+                            not any(f'{v}_{k}' in name_stores or f'{v}_{k}' in name_loads for k in keys):
+                        new_st = [_loc(ast.Assign(targets=[ast.Name(id=f'{v}_{k}', ctx=ast.Store())], value=e), st) for k, e in zip(keys, st.value.values)]
+                        idx = stmts.index(st)
+                        stmts[idx:idx + 1] = new_st
+                        pos_kw = call.keywords.index(kw)
+                        call.keywords[pos_kw:pos_kw + 1] = [_loc(ast.keyword(arg=k, value=ast.Name(id=f'{v}_{k}', ctx=ast.Load())), kw.value) for k in keys]
+                        n_changed += 1
+                        continue
+            for fld in ('body', 'orelse', 'finalbody'):
+                sub = getattr(st, fld, None)
+                if isinstance(sub, list) and sub and isinstance(sub[0], ast.stmt) and not isinstance(st, (ast.FunctionDef, ast.AsyncFunctionDef, ast.ClassDef)):
+                    sra(sub)
+            for h in getattr(st, 'handlers', []) or []:
+                sra(h.body)
+    if spreads:
+        sra(fn.body)      # type: ignore[attr-defined]
+
+    def block(stmts: List[ast.stmt]) -> None:
+        nonlocal n_changed
+        i = 0
+        while i < len(stmts):
+            st = stmts[i]
+            # the table may be named first: `T = (…)` immediately before the loop, T bound once and read only by the loop
+            if isinstance(st, ast.For) and isinstance(st.iter, ast.Name) and i > 0 and isinstance(stmts[i - 1], ast.Assign) and \
+                    len(stmts[i - 1].targets) == 1 and isinstance(stmts[i - 1].targets[0], ast.Name) and stmts[i - 1].targets[0].id == st.iter.id and \
+                    isinstance(stmts[i - 1].value, (ast.Tuple, ast.List)):
+                tn = st.iter.id
+                uses = [y for y in ast.walk(fn) if isinstance(y, ast.Name) and y.id == tn]
+                if len(uses) == 2:
+                    st.iter = stmts[i - 1].value
+                    del stmts[i - 1]
+                    i -= 1
+                    n_changed += 1
+            if isinstance(st, ast.For) and not st.orelse and isinstance(st.iter, (ast.Tuple, ast.List)) and 0 < len(st.iter.elts) <= 16:
+                tg = st.target
+                names = [tg.id] if isinstance(tg, ast.Name) else [e.id for e in tg.elts] if isinstance(tg, (ast.Tuple, ast.List)) and \
+                    all(isinstance(e, ast.Name) for e in tg.elts) else None
+                ok = names is not None
+                rows = []
+                if ok:
+                    for el in st.iter.elts:
+                        if isinstance(tg, ast.Name):
+                            row = [el]
+                        elif isinstance(el, (ast.Tuple, ast.List)) and len(el.elts) == len(names):
+                            row = list(el.elts)
+                        else:
+                            ok = False
+                            break
+                        if not all(atom(e) for e in row):
+                            ok = False
+                            break
+                        rows.append(row)
+                if ok:
+                    body_nodes = [y for b_ in st.body for y in ast.walk(b_)]
+                    bound_in_body = {y.id for y in body_nodes if isinstance(y, ast.Name) and isinstance(y.ctx, (ast.Store, ast.Del))}
+                    used_atoms = {y.id for row in rows for e in row for y in ast.walk(e) if isinstance(y, ast.Name)}
+                    if any(isinstance(y, (ast.Break, ast.Continue, ast.FunctionDef, ast.AsyncFunctionDef, ast.ClassDef, ast.Lambda,
+                                          ast.Yield, ast.YieldFrom, ast.NamedExpr, ast.Global, ast.Nonlocal)) for y in body_nodes) or \
+                            bound_in_body & (set(names) | used_atoms):
+                        ok = False
+                if ok:
+                    inside = {id(y) for y in ast.walk(st)}
+                    after = [y for y in ast.walk(fn) if isinstance(y, ast.Name) and y.id in names and id(y) not in inside]
+                    if after:
+                        ok = False
+                if ok:
+                    out: List[ast.stmt] = []
+                    for row in rows:
+                        bind = dict(zip(names, row))
+                        for b_ in st.body:
+                            out.append(_Sub(bind).visit(copy.deepcopy(b_)))
+                    stmts[i:i + 1] = out
+                    n_changed += 1
+                    continue
+            # RI:  return A if C else B   ->   if C: return A  else: return B
+            if isinstance(st, ast.Return) and isinstance(st.value, ast.IfExp):
+                ie = st.value
+                stmts[i] = _loc(ast.If(test=ie.test, body=[_loc(ast.Return(value=ie.body), ie.body)], orelse=[_loc(ast.Return(value=ie.orelse), ie.orelse)]), st)
+                n_changed += 1
+                continue
+            # PT:  t1, t2 = e1, e2   ->   t1 = e1; t2 = e2   when no later value reads an earlier target (or the object an earlier
+            # attribute target lives on): then evaluating e2 after binding t1 sees what it saw before
+            if isinstance(st, ast.Assign) and len(st.targets) == 1 and isinstance(st.targets[0], (ast.Tuple, ast.List)) and \
+                    isinstance(st.value, (ast.Tuple, ast.List)) and len(st.targets[0].elts) == len(st.value.elts) >= 2 and \
+                    all(isinstance(t, ast.Name) or isinstance(t, ast.Attribute) and isinstance(t.value, ast.Name) for t in st.targets[0].elts) and \
+                    not any(isinstance(e, ast.Starred) for e in st.value.elts):
+                tgs, vals = st.targets[0].elts, st.value.elts
+                ok_pt = True
+                for j in range(1, len(vals)):
+                    read = {y.id for y in ast.walk(vals[j]) if isinstance(y, ast.Name)}
+                    for t in tgs[:j]:
+                        base = t.id if isinstance(t, ast.Name) else t.value.id
+                        if base in read:
+                            ok_pt = False
+                if len({ast.dump(t) for t in tgs}) != len(tgs):
+                    ok_pt = False
+                if ok_pt:
+                    stmts[i:i + 1] = [_loc(ast.Assign(targets=[t], value=v), st) for t, v in zip(tgs, vals)]
+                    n_changed += 1
+                    continue
+            if isinstance(st, ast.Expr) and isinstance(st.value, ast.Call) and isinstance(st.value.func, ast.Name) and st.value.func.id == 'setattr' \
+                    and len(st.value.args) == 3 and not st.value.keywords and isinstance(st.value.args[1], ast.Constant) and \
+                    isinstance(st.value.args[1].value, str) and st.value.args[1].value.isidentifier() and \
+                    not st.value.args[1].value.startswith('__') and isinstance(st.value.args[0], ast.Name):
+                a0, a1, a2 = st.value.args
+                stmts[i] = _loc(ast.Assign(targets=[_loc(ast.Attribute(value=a0, attr=a1.value, ctx=ast.Store()), st)], value=a2), st)
+                n_changed += 1
+                i += 1
+                continue
+            for fld in ('body', 'orelse', 'finalbody'):
+                sub = getattr(st, fld, None)
+                if isinstance(sub, list) and sub and isinstance(sub[0], ast.stmt) and not isinstance(st, (ast.FunctionDef, ast.AsyncFunctionDef, ast.ClassDef)):
+                    block(sub)
+            for h in getattr(st, 'handlers', []) or []:
+                block(h.body)
+            i += 1
+    block(fn.body)      # type: ignore[attr-defined]
+    return n_changed
+
+
 _PURE_BUILTINS = ('isinstance', 'issubclass', 'callable')
+
+def _flag_subst(fn: ast.AST) -> int:
+    """FL:  flag = <test>  …  if flag: …  /  … and not flag   ->   the test written where the flag is read, the assignment dropped.
+    The test is pure (identity / type tests, and / or / not over local names and constants — _local_pure), the flag is bound exactly
+    once, and every name the test reads is a parameter that is never rebound or a local bound exactly once by a statement that
+    precedes the flag's assignment in the same block: then the test has the same value wherever the flag is read."""
+    if not isinstance(getattr(fn, 'body', None), list):
+        return 0
+    stores: Dict[str, int] = {}
+    params: Set[str] = set()
+    for x in ast.walk(fn):
+        if isinstance(x, ast.Name) and isinstance(x.ctx, (ast.Store, ast.Del)):
+            stores[x.id] = stores.get(x.id, 0) + 1
+        elif isinstance(x, ast.arg):
+            params.add(x.arg)
+        elif isinstance(x, (ast.Global, ast.Nonlocal)):
+            for nm in x.names:
+                stores[nm] = stores.get(nm, 0) + 99
+        elif isinstance(x, ast.ExceptHandler) and x.name:
+            stores[x.name] = stores.get(x.name, 0) + 1
+    n_changed = 0
+
+    def block(stmts: List[ast.stmt]) -> None:
+        nonlocal n_changed
+        i = 0
+        while i < len(stmts):
+            st = stmts[i]
+            tg = st.targets[0] if isinstance(st, ast.Assign) and len(st.targets) == 1 else st.target if isinstance(st, ast.AnnAssign) and st.value is not None else None
+            v = st.value if tg is not None else None
+            if isinstance(tg, ast.Name) and stores.get(tg.id) == 1 and tg.id not in params and \
+                    isinstance(v, (ast.Compare, ast.BoolOp, ast.UnaryOp)) and _local_pure(v) and \
+                    not any(isinstance(y, ast.Name) and y.id == tg.id for y in ast.walk(v)):
+                ok = True
+                for y in ast.walk(v):
+                    if isinstance(y, ast.Name):
+                        if y.id in params and not stores.get(y.id):
+                            continue
+                        if stores.get(y.id) == 1 and any(
+                                isinstance(p_, (ast.Assign, ast.AnnAssign)) and
+                                any(isinstance(z, ast.Name) and z.id == y.id and isinstance(z.ctx, ast.Store)
+                                    for t_ in (p_.targets if isinstance(p_, ast.Assign) else [p_.target]) for z in ast.walk(t_))
+                                for p_ in stmts[:i]):
+                            continue
+                        if y.id in ('None', 'True', 'False') or (y.id not in stores and y.id not in params):
+                            continue        # a global / builtin name (UNSET, a class): not rebound by local code
+                        ok = False
+                reads = [y for y in ast.walk(fn) if isinstance(y, ast.Name) and y.id == tg.id and isinstance(y.ctx, ast.Load)]
+                # reads in nested functions / lambdas / comprehensions see the variable later: not touched
+                nested = {id(z) for d in ast.walk(fn) if d is not fn and isinstance(d, (ast.FunctionDef, ast.AsyncFunctionDef, ast.Lambda, ast.ListComp,
+                                                                                          ast.SetComp, ast.DictComp, ast.GeneratorExp))
+                          for z in ast.walk(d)}
+                if ok and reads and 0 < len(reads) <= 6 and not any(id(r) in nested for r in reads):
+                    class _R(ast.NodeTransformer):
+                        def visit_Name(self_, x):      # noqa: N805
+                            if isinstance(x.ctx, ast.Load) and x.id == tg.id:
+                                return _loc(copy.deepcopy(v), x)
+                            return x
+                    del stmts[i]
+                    for top in fn.body:     # type: ignore[attr-defined]
+                        _R().visit(top)
+                    n_changed += 1
+                    continue
+            for fld in ('body', 'orelse', 'finalbody'):
+                sub = getattr(st, fld, None)
+                if isinstance(sub, list) and sub and isinstance(sub[0], ast.stmt) and not isinstance(st, (ast.FunctionDef, ast.AsyncFunctionDef, ast.ClassDef)):
+                    block(sub)
+            for h in getattr(st, 'handlers', []) or []:
+                block(h.body)
+            i += 1
+    block(fn.body)      # type: ignore[attr-defined]
+    return n_changed
+
 
 
 def _local_pure(e: ast.AST) -> bool:
@@ -1531,6 +1826,25 @@ def _forward_subst(fn: ast.AST) -> int:
                 # `v = E` then `return await v` / `x = v` / `await v`: nothing is evaluated between E and the read, whatever E is
                 direct = (isinstance(nv_, ast.Name) and nv_.id == v) or \
                     (isinstance(nv_, ast.Await) and isinstance(nv_.value, ast.Name) and nv_.value.id == v)
+                # … or the read is the first thing the next statement evaluates (`flag = E` then `if flag:` / `return A if flag else B` /
+                # `if not flag and …`): again nothing runs between E and the read
+                if not direct:
+                    hs_ = headers(nxt)
+                    lead = hs_[0] if hs_ and not isinstance(nxt, (ast.Raise,)) else None
+                    while lead is not None and not isinstance(lead, ast.Name):
+                        if isinstance(lead, ast.IfExp):
+                            lead = lead.test
+                        elif isinstance(lead, ast.BoolOp):
+                            lead = lead.values[0]
+                        elif isinstance(lead, ast.UnaryOp) and isinstance(lead.op, ast.Not):
+                            lead = lead.operand
+                        elif isinstance(lead, ast.Compare):
+                            lead = lead.left
+                        elif isinstance(lead, ast.Await):
+                            lead = lead.value
+                        else:
+                            lead = None
+                    direct = isinstance(lead, ast.Name) and lead.id == v
                 direct = direct and not isinstance(st.value, (ast.Yield, ast.YieldFrom, ast.NamedExpr)) and \
                     not any(isinstance(y, (ast.Yield, ast.YieldFrom, ast.NamedExpr)) for y in ast.walk(st.value))
                 if (ok_value(st.value) or direct) and not any(isinstance(y, (ast.NamedExpr, ast.Lambda, ast.ListComp, ast.SetComp, ast.DictComp, ast.GeneratorExp))
@@ -1596,6 +1910,8 @@ def _triggers(tree: ast.Module) -> bool:
                 return True
             if any(isinstance(a, ast.Starred) and isinstance(a.value, (ast.Tuple, ast.List, ast.Call)) for a in x.args):
                 return True
+            if any(k.arg is None and isinstance(k.value, ast.Dict) for k in x.keywords):
+                return True
             if isinstance(f, ast.Attribute) and (f.attr == 'format' and isinstance(f.value, ast.Constant) or f.attr == 'filterfalse' or
                                                  f.attr == 'get' and isinstance(f.value, ast.Dict)):
                 return True
@@ -1629,7 +1945,15 @@ def _triggers(tree: ast.Module) -> bool:
             return True
         elif isinstance(x, (ast.Match, ast.YieldFrom)):
             return True
-        elif isinstance(x, ast.Return) and isinstance(x.value, (ast.DictComp, ast.ListComp)):
+        elif isinstance(x, ast.Call) and (dotted(x.func) or '').rsplit('.', 1)[-1] == 'MappingProxyType':
+            return True
+        elif isinstance(x, ast.For) and isinstance(x.iter, (ast.Tuple, ast.List, ast.Name)):
+            return True
+        elif isinstance(x, ast.Assign) and isinstance(x.targets[0], (ast.Tuple, ast.List)) and isinstance(x.value, (ast.Tuple, ast.List)):
+            return True
+        elif isinstance(x, ast.Expr) and isinstance(x.value, ast.Call) and dotted(x.value.func) == 'setattr':
+            return True
+        elif isinstance(x, ast.Return) and isinstance(x.value, (ast.DictComp, ast.ListComp, ast.IfExp)):
             return True
         elif isinstance(x, ast.While) and isinstance(x.test, ast.Compare) and isinstance(x.test.left, ast.NamedExpr):
             return True
@@ -1778,6 +2102,8 @@ def canonical(prog: Program, known_globals: Optional[Set[str]] = None) -> Progra
                 k += _propagate_aliases(fn)
                 k += _forward_subst(fn)
                 k += _sentinel_loops(fn, mod_sentinels)
+                k += _static_loops(fn)
+                k += _flag_subst(fn)
             rw = _Rewriter(_namedtuples(tree))
             rw.typeddicts = {st.name for st in tree.body if isinstance(st, ast.ClassDef) and
                              any(dotted(b) in ('TypedDict', 'typing.TypedDict') for b in st.bases)}
